@@ -604,6 +604,7 @@ func (l *Loop) bruteForceContainsPoint(p Point) bool {
 
 // ContainsPoint returns true if the loop contains the point.
 func (l *Loop) ContainsPoint(p Point) bool {
+	verifSched(7, l.index)
 	if !l.index.IsFresh() && !l.bound.ContainsPoint(p) {
 		return false
 	}
